@@ -72,6 +72,16 @@ def check(seed):
         return "composition with mismatched frames accepted"
     except ValueError:
         pass
+    # ... also through the matrix-argument route of transform (x.transform(y) is y after x: y must start where x ends)
+    for call in (lambda: bc.transform(ab), lambda: bc.transform(matrix=ab)):
+        try:
+            call()
+            return "transform(matrix) composed two transforms whose frames do not chain (lidar_top is not base_link)"
+        except ValueError:
+            pass
+    chained = ab.transform(bc)
+    if chained.src != FrameID.BASE_LINK or chained.dst != FrameID.LIDAR_TOP or not np.allclose(chained.matrix, bc.matrix.dot(ab.matrix), atol=1e-7):
+        return "transform(matrix) of two chaining transforms is not their composition"
     # pose agrees with the homogeneous matrices
     h = np.eye(4)
     h[:3, :3] = q.rotation_matrix
